@@ -114,6 +114,7 @@ def stmt_exprs(st):
 
 class TimeWalker(Walker):
     """Checks one site."""
+    unroll_literal_loops = True
     def __init__(self, report, fi, kind, T, S, time_params, rules):
         super().__init__()
         self.report = report
@@ -374,9 +375,83 @@ def bind_api_roles(prog, call):
     return T, S
 
 
+class FilterWalker(Walker):
+    """Loops that iterate a *filtered* copy of the trial list: an element
+    dropped by the filter is skipped for every point of the call, so the
+    negated filter condition must imply T <= S for the API call it guards.
+    """
+    def __init__(self, prog, report, fi):
+        super().__init__()
+        self.prog = prog
+        self.report = report
+        self.fi = fi
+        self.n = 0
+
+    def on_stmt(self, st, state):
+        if not isinstance(st, ast.For):
+            return
+        it = state.sub(st.iter)
+        if not (isinstance(it, ast.ListComp) and it.generators
+                and it.generators[0].ifs):
+            return
+        calls = [n for n in ast.walk(st) if isinstance(n, ast.Call)
+                 and isinstance(n.func, ast.Attribute)
+                 and n.func.attr in API_ROLES]
+        if not calls:
+            return
+        g = it.generators[0]
+        # map comprehension names -> loop names by position
+        def flat(t):
+            return [text(e) for e in t.elts] if isinstance(
+                t, ast.Tuple) else [text(t)]
+        elt_names = flat(it.elt)
+        loop_names = flat(st.target)
+        if len(elt_names) != len(loop_names):
+            raise AnalysisError('%s: filtered list shape not recognised' %
+                                self.fi.where(st))
+        ren = {c: ast.Name(id=l, ctx=ast.Load())
+               for c, l in zip(elt_names, loop_names)}
+        # state inside the loop body (loop variables renamed by the walker)
+        inner = state.copy()
+        for n in loop_names:
+            inner.forget(n)
+        for cond in g.ifs:
+            cond2 = subst(subst(cond, ren), inner.env)
+            for call in calls:
+                roles = bind_api_roles(self.prog, call)
+                if roles is None:
+                    raise AnalysisError('%s: cannot bind roles' %
+                                        self.fi.where(call))
+                # the point time is bound inside the loop nest: give it a
+                # fresh symbol unrelated to anything outside
+                T, S = roles
+                dropped = inner.copy().assume(cond2, neg=True)
+                tl = to_lin(subst(subst(T, {'t': ast.Name(
+                    id='t#point', ctx=ast.Load())}), inner.env))
+                sl = to_lin(subst(S, inner.env))
+                ok = dropped.entails(('lin', tl - sl, '<='))
+                self.n += 1
+                self.report.check(
+                    ok, 'R-exit-sound',
+                    '%s filter before %s' % (self.fi.qualname,
+                                             call.func.attr),
+                    self.fi.where(st),
+                    'trial elements removed by the filter `%s` are skipped '
+                    'for every point of the call: that is sound only if '
+                    'the negated condition implies T <= S for each point '
+                    '(T=%s, S=%s)' % (text(cond), text(T), text(S)),
+                    construct='%s: filter on the trial list not implied '
+                    'acausal' % self.fi.qualname)
+
+
 def run_prefilters(prog, report):
     for file, q, api in PREFILTERS:
         fi = prog.func(file, q)
+        fw = FilterWalker(prog, report, fi)
+        top = fi
+        while top.parent is not None:
+            top = top.parent
+        fw.walk_function(top.node)
         w = PreWalker(prog, report, fi, api)
         w.walk_function(fi.node)
         # a vanished pre-filter is an equivalent program (the callee is
